@@ -11,7 +11,10 @@
 (*   "memoByTableId"   set of trace-domain ids remembered per IDENTITY of the table object           *)
 (*   "lazyModuleNames" name -> ids of helper records resolved once per process from whichever table  *)
 (*                     needed it first                                                               *)
-(* Property OwnTable: what an object answers for a record equals Resolve(contents of ITS table NOW). *)
+(* Property OwnTable: what an object answers for a record equals Resolve(contents of ITS table) -    *)
+(* pinned as long as the table object has not been refilled since the parser was constructed with   *)
+(* it (whether an object reads its table at construction or at every record is not pinned: a        *)
+(* request constructs its parser, so a refilled table is honoured by the NEXT parser either way).   *)
 (* This is the specification behind the harness's decoys (harness/decoy.py): activity of other       *)
 (* objects under other tables must not change any answer.   Used for C04, C07, C10, C17, C19, C20.   *)
 (***************************************************************************************************)
@@ -45,25 +48,29 @@ VARIABLES content,     \* table object -> its contents now
           idMemo,      \* table object identity -> remembered set of trace-domain ids (variant memoByTableId)
           modNames,    \* remembered helper ids or "unset" (variant lazyModuleNames)
           last,        \* the last answer given: [p, i, ans]
+          fresh,       \* parser object -> its table object has not been refilled since it was constructed
           steps
-vars == <<content, tableOf, classMemo, idMemo, modNames, last, steps>>
+vars == <<content, tableOf, classMemo, idMemo, modNames, last, fresh, steps>>
 
 None == [handler |-> "none", domain |-> "ord", helpers |-> {}]
 Init == /\ content \in [TableObjs -> SomeTables]
         /\ tableOf = [p \in Parsers |-> "none"]
         /\ classMemo = [i \in Ids |-> [set |-> FALSE, v |-> None]] /\ idMemo = [o \in TableObjs |-> [set |-> FALSE, v |-> {}]]
         /\ modNames = [set |-> FALSE, v |-> {}]
-        /\ last = [p |-> "none", i |-> 1, ans |-> None, want |-> None] /\ steps = 0
+        /\ last = [p |-> "none", i |-> 1, ans |-> None, want |-> None, pinned |-> TRUE] /\ steps = 0
+        /\ fresh = [p \in Parsers |-> TRUE]
 
 \* the caller refills a table object in place (same identity, other contents)
 RefillA(o, t) ==
             /\ content' = [content EXCEPT ![o] = t]
+            /\ fresh' = [p \in Parsers |-> IF tableOf[p] = o /\ t # content[o] THEN FALSE ELSE fresh[p]]
             /\ UNCHANGED <<tableOf, classMemo, idMemo, modNames, last>>
 Refill == \E o \in TableObjs, t \in SomeTables : RefillA(o, t)
 
 \* TracesParser(table, ...) : __init__
 ConstructA(p, o) ==
    /\ tableOf' = [tableOf EXCEPT ![p] = o]
+   /\ fresh' = [fresh EXCEPT ![p] = TRUE]
    /\ idMemo' = IF Variant = "memoByTableId" /\ ~idMemo[o].set
                 THEN [idMemo EXCEPT ![o] = [set |-> TRUE, v |-> {i \in Ids : content[o][i] = "s"}]] ELSE idMemo
    /\ UNCHANGED <<content, classMemo, modNames, last>>
@@ -80,15 +87,15 @@ FeedA(p, i) ==
                               ELSE IF Variant = "memoByTableId" THEN (IF i \in idMemo[tableOf[p]].v THEN "trc" ELSE "ord")
                               ELSE own.domain,
                   helpers |-> IF Variant = "lazyModuleNames" /\ modNames.set THEN modNames.v ELSE own.helpers]
-      IN /\ last' = [p |-> p, i |-> i, ans |-> ans, want |-> own]
+      IN /\ last' = [p |-> p, i |-> i, ans |-> ans, want |-> own, pinned |-> fresh[p]]
          /\ classMemo' = IF Variant = "memoOnClass" /\ ~classMemo[i].set THEN [classMemo EXCEPT ![i] = [set |-> TRUE, v |-> own]] ELSE classMemo
          /\ modNames' = IF Variant = "lazyModuleNames" /\ ~modNames.set /\ own.handler = "r" THEN [set |-> TRUE, v |-> own.helpers] ELSE modNames
-   /\ UNCHANGED <<content, tableOf, idMemo>>
+   /\ UNCHANGED <<content, tableOf, idMemo, fresh>>
 Feed == \E p \in Parsers, i \in Ids : FeedA(p, i)
 
 Next == steps < MaxSteps /\ steps' = steps + 1 /\ (Refill \/ Construct \/ Feed)
 Spec == Init /\ [][Next]_vars
 
 \* every answer is the one the object's OWN table gave at that moment
-OwnTable == last.p # "none" => last.ans = last.want
+OwnTable == (last.p # "none" /\ last.pinned) => last.ans = last.want
 =============================================================================
